@@ -156,6 +156,10 @@ def to_tfrecord(saved_data_description: list[Attribute],
             feature[attribute.name] = bytes_feature(
                 [tf.io.serialize_tensor(value).numpy()])
         elif attribute.dtype in ["float32", "float64"]:
+            # Same as above: a FloatList silently drops non-numeric values.
+            if not np.can_cast(value.dtype, np.float64, casting="safe"):
+                raise ValueError(f"Cannot cast value of dtype {value.dtype} "
+                                 f"passed as {attribute.name} to float.")
             feature[attribute.name] = float_feature(values[attribute.name])
         elif attribute.dtype == "str":
             feature[attribute.name] = bytes_feature(
